@@ -210,7 +210,7 @@ impl SnapshotStream {
         // an ASPA's providerAsns array has one element per provider, bracket opened and closed once
         frags(final(vec)@) == frags(old(vec)@) + listed_item_frags(payload, first),
 //@ entry
-        broadcast use axiom_frags_comma, lemma_push_concat;
+        broadcast use axiom_frags_comma;
         let ghost b0 = vec@;
         let ghost f0 = frags(vec@);
 //@ beforeloop 1
@@ -225,8 +225,6 @@ impl SnapshotStream {
                         first == (it.index@ == 0),
                         // C18: one array element per provider so far
                         frags(vec@) == f1 + provider_frags(it.index@),
-//@ loopentry 1
-                    broadcast use lemma_push_concat;
 //@ fn DeltaStream::next_announce
 //@ spec
     requires
